@@ -146,24 +146,31 @@ PROPS = {
         "symbolic; over all six variables they are Open obligations (not decided by z3, DESIGN.md 9.4)."),
     "C16": sprop(
         "Symbolic execution of the real CAM16 code with concrete viewing conditions (the real prepare_parameters runs in f64) and a "
-        "symbolic colour: the CAM16-UCS formulas and their inverses (exp/ln axioms), Jab <-> Jmh (trigonometric axioms), each of the six "
-        "partial types = the full model's attributes (syntactic identity), black <-> black, adopted white has J = 100. The XYZ -> CAM16 "
-        "-> XYZ round trips through the non-linear compression are Open obligations (z3 does not decide them): the inverse model is NOT "
-        "covered, two seeded changes to it were missed (DESIGN.md 9.4, 9.7).",
-        "Trusted: z3. Viewing conditions: D65 with L_A in {4, 40, 318}, D50 with L_A = 64, Y_b = 20, average surround; others are outside "
-        "the claim. The forward model is not compared against an independent transcription of Li et al. (shared pow symbols would make "
-        "that comparison syntactic only)."),
+        "symbolic colour: the forward model against an independent transcription of the published equations (Li et al. 2017, Appendix A, "
+        "incl. the viewing-condition quantities) - J, Q, C, M, s for every XYZ in [0.05, 1]^3 under three viewing conditions (average / "
+        "dim / dark surround, D65 / D50, L_A 40 / 64), decided after a canonicalisation of the arithmetic that makes the arguments of the "
+        "uninterpreted powf / cos / atan2 on both sides the same terms; the CAM16-UCS formulas and their inverses (exp/ln axioms), Jab <-> "
+        "Jmh (trigonometric axioms), each of the six partial types = the full model's attributes (syntactic identity), black <-> black, "
+        "adopted white has J = 100.",
+        "Trusted: z3; the transcription (symx/src/reference/cam16.rs); the canonicalisation pass pv/canon.py (real-arithmetic identities + "
+        "rounding of polynomial coefficients to 12 significant digits, six orders of magnitude below the tolerances). The XYZ -> CAM16 -> "
+        "XYZ round trips are Open obligations (z3 does not decide them): the INVERSE model is NOT covered, two seeded changes to it were "
+        "missed (DESIGN.md 9.4, 9.7). Hue is checked through the UCS / partial obligations, not in the forward differential."),
     "C17": sprop(
         "Two halves. Engine S: the mask-generic code path (what every SIMD lane computes: all lazy_select branches evaluated and blended "
         "by masks, the separate SIMD branches of RGB->HSV/HSL) equals the scalar code path (what f32/f64 compute); the real functions are "
         "executed with SymM (one DAG) and with SymF (one run per decision vector) and z3 searches the whole input box for an input where an "
         "output differs by more than the tolerance. Engine K: palette's glue for the real `wide` types (num/wide.rs, bool_mask/wide.rs, "
-        "angle/wide.rs, macros/simd.rs) compiled with the `wide` feature: comparisons, masks, select, min/max/clamp/abs/floor/ceil/round/"
-        "signum, is_valid_divisor, hue normalisation and angle equality, array <-> SIMD colour packing, bounds / clamp of SIMD colours and "
-        "of slices of them, lane by lane against the scalar function for every lane input (all lanes symbolic, bit for bit).",
-        "Trusted: z3, Kani/CBMC/cadical and Kani's model of the portable SIMD intrinsics the wide crate compiles to (no AVX/SSE4.1 "
-        "target feature: wide's fallback code paths are the ones checked). SymM's trait impls model palette's glue in Engine S. "
-        "Transcendental functions of the wide crate (sin, cos, powf, ln, exp, cbrt) and f32-vs-f64 agreement are not checked.",
+        "angle/wide.rs, macros/simd.rs) compiled with the `wide` feature, over the real f32x4 / f64x2 (quick) and f32x8 / f64x4 (thorough): "
+        "comparisons, masks (from_bool, is_true, is_false, select, lazy_select), min/max/clamp/abs/floor/ceil/signum, is_valid_divisor, "
+        "array <-> SIMD colour packing, bounds / clamp of SIMD colours and of slices of them - all lanes symbolic, bit for bit against the "
+        "scalar function of each lane's input; hue normalisation, angle equality and RGB <-> HSV with one lane symbolic (the others on other "
+        "branches).",
+        "Trusted: z3, Kani/CBMC/cadical, and the 28 lane-wise models of the SSE/SSE2 intrinsics that Kani cannot translate or mistreats "
+        "(cmp/max/min/add/sub/mul/div ps and pd, kani/src/c17_support.rs, installed with #[kani::stub]); counterexamples are replayed "
+        "against the real SSE instructions. No AVX/SSE4.1 target feature: wide's SSE2 code paths are the ones checked. SymM's trait impls "
+        "model palette's glue in Engine S. Transcendental functions of the wide crate (sin, cos, powf, ln, exp, cbrt), Round::round (not "
+        "used by any colour operation on wide types) and f32-vs-f64 agreement are not checked.",
         engines=("kani", "symx")),
     "C14": sprop(
         "Symbolic execution of the real RGB<->XYZ, XYZ->Lab/Luv/Oklab and chromatic-adaptation code for every RGB standard / white point "
